@@ -53,6 +53,7 @@ class Analyzer:
         self.shapes = {}      # fname -> return shape learnt from its own analysis
         self.inline = set(INLINE)   # functions executed inside their callers (grows: context-sensitive re-analysis)
         self.roots = set()
+        self.vartime = set()   # variable-time routines reached from a constant-time entry point: calls to them are leak sites
 
     # ---- symbolic inputs from types
     def sym_cells(self, k, t, name):
@@ -245,7 +246,7 @@ class Analyzer:
                         seen_ext.add(c)
                 elif c in self.inline or not is_repo(prog, c):
                     work.append(c)
-        for c in seen_ext:
+        for c in list(seen_ext) + sorted(self.vartime):
             def extsum(ex_, path, a, c=c):
                 sec = [x for x in a if not isinstance(x, (int, bool, str, X.Ptr, X.Closure)) and x is not None]
                 path.leaks.append(("extcall", ex_.site(path), c, len(path.pc)))
@@ -260,7 +261,7 @@ class Analyzer:
         t0 = time.time()
         # a stand-alone analysis with every parameter symbolic may not terminate (a loop bound that is a public counter in
         # every caller is symbolic here): bounded in time; the function is then analysed in the context of its callers
-        ex.deadline = time.time() + (40 if fname not in self.roots else 1200)
+        ex.deadline = time.time() + (40 if fname not in self.roots else 300)
         try:
             paths = ex.call(fname, args, k.path)
         except X.ExecError as e:
@@ -428,6 +429,8 @@ def run(chk):
     an = Analyzer(base, chk)
     an.todo_set = set(ct_funcs)
     an.roots = set(API)
+    an.vartime = set(vt_reached)
+    an.todo_set -= an.vartime
 
     def has_ptr_inside(t, top=True):
         u = t.u
@@ -458,7 +461,7 @@ def run(chk):
     results = []
     t0 = time.time()
     for n in order:
-        if n in an.inline:
+        if n in an.inline or n in an.vartime:
             continue
         try:
             r = an.analyse(n, None)
